@@ -1,7 +1,6 @@
 #![allow(non_camel_case_types, non_snake_case, dead_code)]
 #[tarpc::service]
 pub trait Rej26 {
-    async fn r#fn() -> String;
-    async fn new();
+    async fn Ab(ctx: tarpc::context::Context);
 }
 fn main() {}
